@@ -87,6 +87,7 @@ func checkC03(c *Ctx) {
 		recordLevelWrittenOnce(c, p, m, "R03.2")
 		regOptsIndependent(c, p)
 		writerSetNilSafe(c, p, m, "R03.4")
+		fallbackSetIndependent(c, p, "R03.4")
 		c03Wrappers(c, p, m)
 		c03AddRemove(c, p, m)
 		c03Notify(c, p, m)
@@ -1819,4 +1820,66 @@ func writerSetNilSafe(c *Ctx, p *Prog, m *Model, rule string) {
 	if n == 0 {
 		r.Unk(rule, "nil-set", "-", "no method call on a logger's writer set found")
 	}
+}
+
+// fallbackSetIndependent (R03.4): the package-level fallback writer set (used by every logger that has no writers of
+// its own) belongs to no logger: it is only ever replaced by a freshly built set, never by a set taken from a logger
+// (or from any argument) - otherwise loggers that never were given writers start writing to that logger's
+// destinations, i.e. outside their own selected set.
+func fallbackSetIndependent(c *Ctx, p *Prog, rule string) {
+	r := c.R
+	g := p.Global(p.Slog, "defaultWriter")
+	if g == nil {
+		r.Unk(rule, "fallback-set-independent", "-", "defaultWriter not found")
+		return
+	}
+	n := 0
+	var bad []string
+	for _, fn := range p.RepoFuncs() {
+		for _, b := range fn.Blocks {
+			for _, in := range b.Instrs {
+				st, ok := in.(*ssa.Store)
+				if !ok || st.Addr != ssa.Value(g) {
+					continue
+				}
+				n++
+				seen := map[ssa.Value]bool{}
+				var foreign func(v ssa.Value) bool
+				foreign = func(v ssa.Value) bool {
+					if v == nil || seen[v] {
+						return false
+					}
+					seen[v] = true
+					switch x := v.(type) {
+					case *ssa.Parameter, *ssa.FreeVar, *ssa.FieldAddr, *ssa.Field, *ssa.Global, *ssa.TypeAssert:
+						return true
+					case *ssa.Call:
+						for _, a := range x.Common().Args {
+							if foreign(a) {
+								return true
+							}
+						}
+						return x.Common().IsInvoke()
+					case ssa.Instruction:
+						for _, op := range x.Operands(nil) {
+							if *op != nil && foreign(*op) {
+								return true
+							}
+						}
+					}
+					return false
+				}
+				if foreign(st.Val) {
+					bad = append(bad, shortName(fn)+" at "+p.Pos(instrPos(st)))
+				}
+			}
+		}
+	}
+	sort.Strings(bad)
+	if n == 0 {
+		r.Unk(rule, "fallback-set-independent", "-", "no store to the package-level fallback writer set found")
+		return
+	}
+	r.Check(len(bad) == 0, rule, "fallback-set-independent", p.Pos(g.Pos()), fmt.Sprintf("the %d stores to the package-level fallback writer set install a freshly built set", n),
+		"the package-level fallback writer set is replaced by a set taken from a logger or an argument ("+strings.Join(bad, "; ")+"): every logger without writers of its own then writes to that logger's destinations, outside its own selected set")
 }
